@@ -262,19 +262,41 @@ class MustPass:
         self.extra_callee = extra_callee  # CallSite -> list of body names also to consider (closures args)
         self.ret_guard = ret_guard        # stripped term -> bool: the returned bool IS the guard literal
 
-    def holds(self, fname, depth=0):
-        if fname in self.memo:
-            return self.memo[fname][0]
+    def holds(self, fname, depth=0, key=None):
+        key = key or fname
+        if key in self.memo:
+            return self.memo[key][0]
         body = self.facts.body(fname)
         if body is None:
-            self.memo[fname] = (False, "no MIR body for %s" % fname)
+            self.memo[key] = (False, "no MIR body for %s" % fname)
             return False
         if depth > self.max_depth:
             return False
-        self.memo[fname] = (False, "recursion")
+        self.memo[key] = (False, "recursion")
         r = self._analyse(body, depth)
-        self.memo[fname] = r
+        self.memo[key] = r
         return r[0]
+
+    def _holds_closure(self, ct, depth):
+        """A closure passed to a combinator, read with its captures spelt as the values captured at this site."""
+        from . import sym as _sym
+        cb = self.facts.body(ct[1])
+        if cb is None:
+            return False
+        m = {}
+        for name, pl in cb.rec.get("upvars", []):
+            idx = None
+            for pe in pl.get("p", []):
+                if pe and pe[0] == "f":
+                    try:
+                        idx = int(pe[1])
+                    except (TypeError, ValueError):
+                        idx = None
+                    break
+            if idx is not None and idx < len(ct[2]):
+                m[("upvar", name)] = render(ct[2][idx])
+        with _sym.substituting(m):
+            return self.holds(ct[1], depth, key=(ct[1], tuple(sorted(m.items()))))
 
     def why(self, fname):
         return self.memo.get(fname, (False, "not analysed"))[1]
@@ -285,7 +307,7 @@ class MustPass:
         for a in c.args:
             t = strip(sym.operand(a))
             if t[0] == "closure":
-                out.append(t[1])
+                out.append(t)
         return out
 
     def _analyse(self, body, depth):
@@ -306,8 +328,8 @@ class MustPass:
                     if self.holds(tgt, depth + 1):
                         hit = True
                 if not hit:
-                    for cl in self._closure_args(body, sym, c):
-                        if cl in self.facts.bodies and self.holds(cl, depth + 1):
+                    for ct in self._closure_args(body, sym, c):
+                        if ct[1] in self.facts.bodies and self._holds_closure(ct, depth + 1):
                             hit = True
                             break
             if hit:
